@@ -5,6 +5,7 @@ bad=0
 for d in /verif/seeded/C*; do
   id=$(basename $d)
   pf=$d/patch.diff; [ -f $d/patch_current.diff ] && pf=$d/patch_current.diff
+  if grep -q '"superseded_by"' $d/meta.json 2>/dev/null; then echo "$id: superseded (a later repair made this change harmless; see meta.json)"; continue; fi
   if ! git -C /repo apply --check $pf 2>/dev/null; then echo "$id: patch does not apply to the current tree"; bad=1; continue; fi
   git -C /repo apply $pf
   prop=${id:0:3}
